@@ -64,11 +64,13 @@ def attrOK (a : QName × Str) : Bool :=
 
 def attrsOK (as : AttrList) : Bool := as.all attrOK && Reader.nodupKeys as
 
-/-- a START_NS event that stands for a legal declaration; the `xml` prefix is
-    never declared -/
+/-- a START_NS event that stands for a legal declaration (the `xml` prefix may
+    be declared, with its own namespace only: `xmlns:xml="http://www.w3.org/XML/1998/namespace"`
+    is legal XML and expat reports it; the flattener never writes it, the prefix
+    being bound permanently) -/
 def nsDeclOK (p u : Str) : Bool :=
   if p.isEmpty then Reader.declLegal [] (normUri u)
-  else Reader.declLegal p u && p ≠ xmlPrefix && u ≠ noneUri
+  else Reader.declLegal p u && u ≠ noneUri
 
 /-- a preferred-prefix table the constructor may be given -/
 def prefOK (pref : List (Str × Str)) : Bool :=
